@@ -10,7 +10,8 @@ Print Assumptions c27_context_binds_channel.
    over the very body, under the context of the body's (non-empty) channel *)
 Theorem c27_verify_exact : forall m v,
   extract_and_verify m = Ok v <->
-  authentic m (v_key v) (v_data v) (v_chan v) /\ (exists vr, s_body m = Enc (v_data v) (v_chan v) true vr).
+  authentic m (v_key v) (v_data v) (v_chan v) /\ (exists vr, s_body m = Enc (v_data v) (v_chan v) true vr) /\
+  att_ok (s_att m) = true.
 Proof. exact extract_ok. Qed.
 Print Assumptions c27_verify_exact.
 
@@ -47,34 +48,35 @@ Proof. exact c27_drop. Qed.
 Print Assumptions c27_drop_all.
 
 (* the forgery classes named in the property *)
-Theorem c27_drop_tampered : forall st prev f b b' k ctx,
-  b' <> b -> step st (RecvPublish prev (SMsg f b' (Sig k ctx b))) = (st, []).
+Theorem c27_drop_tampered : forall st prev f b b' k ctx a,
+  b' <> b -> step st (RecvPublish prev (SMsg f b' (Sig k ctx b) a)) = (st, []).
 Proof. exact c27_tampered. Qed.
 Print Assumptions c27_drop_tampered.
 
-Theorem c27_drop_retargeted : forall st prev k d ch ch' ts v ts' v',
+Theorem c27_drop_retargeted : forall st prev k d ch ch' ts v ts' v' a,
   ch' <> ch ->
-  step st (RecvPublish prev (SMsg (Peer k) (Enc d ch' ts' v') (Sig k (pub_ctx ch) (Enc d ch ts v)))) = (st, []).
+  step st (RecvPublish prev (SMsg (Peer k) (Enc d ch' ts' v') (Sig k (pub_ctx ch) (Enc d ch ts v)) a)) = (st, []).
 Proof. exact c27_retargeted. Qed.
 Print Assumptions c27_drop_retargeted.
 
-Theorem c27_drop_foreign_signature : forall st prev k k' ctx b b',
-  k <> k' -> step st (RecvPublish prev (SMsg (Peer k) b (Sig k' ctx b'))) = (st, []).
+(* whatever public key is attached to the signature object *)
+Theorem c27_drop_foreign_signature : forall st prev k k' ctx b b' a,
+  k <> k' -> step st (RecvPublish prev (SMsg (Peer k) b (Sig k' ctx b') a)) = (st, []).
 Proof. exact c27_foreign. Qed.
 Print Assumptions c27_drop_foreign_signature.
 
-Theorem c27_drop_wrong_context : forall st prev f d ch ts v k ctx b,
-  ctx <> pub_ctx ch -> step st (RecvPublish prev (SMsg f (Enc d ch ts v) (Sig k ctx b))) = (st, []).
+Theorem c27_drop_wrong_context : forall st prev f d ch ts v k ctx b a,
+  ctx <> pub_ctx ch -> step st (RecvPublish prev (SMsg f (Enc d ch ts v) (Sig k ctx b) a)) = (st, []).
 Proof. exact c27_wrong_context. Qed.
 Print Assumptions c27_drop_wrong_context.
 
-Theorem c27_drop_other_channel_signature : forall st prev f d ch ch' ts v k b,
-  ch' <> ch -> step st (RecvPublish prev (SMsg f (Enc d ch ts v) (Sig k (pub_ctx ch') b))) = (st, []).
+Theorem c27_drop_other_channel_signature : forall st prev f d ch ch' ts v k b a,
+  ch' <> ch -> step st (RecvPublish prev (SMsg f (Enc d ch ts v) (Sig k (pub_ctx ch') b) a)) = (st, []).
 Proof. exact c27_other_channel_context. Qed.
 Print Assumptions c27_drop_other_channel_signature.
 
-Theorem c27_drop_empty_channel : forall st prev f d ts v s,
-  step st (RecvPublish prev (SMsg f (Enc d [] ts v) s)) = (st, []).
+Theorem c27_drop_empty_channel : forall st prev f d ts v s a,
+  step st (RecvPublish prev (SMsg f (Enc d [] ts v) s a)) = (st, []).
 Proof. exact c27_empty_channel. Qed.
 Print Assumptions c27_drop_empty_channel.
 
@@ -92,9 +94,10 @@ Print Assumptions c27_drop_unsubscribed.
 
 (* non-vacuity: an honest fresh message for a subscribed channel IS delivered to
    the handlers, and a replay of it is dropped *)
-Theorem c27_honest_delivered : forall st prev k d ch v,
+Theorem c27_honest_delivered : forall st prev k d ch v a,
+  att_ok a = true ->
   ch <> [] -> has_chan ch (n_chans st) = true ->
-  let m := SMsg (Peer k) (Enc d ch true v) (Sig k (pub_ctx ch) (Enc d ch true v)) in
+  let m := SMsg (Peer k) (Enc d ch true v) (Sig k (pub_ctx ch) (Enc d ch true v)) a in
   seen_mem (msg_id m) (n_seen st) = false ->
   exists st' os, step st (RecvPublish prev m) = (st', Deliver ch k d (chan_handlers ch (n_chans st)) :: os).
 Proof. exact c27_accepts. Qed.
@@ -108,9 +111,10 @@ Print Assumptions c27_replay_is_dropped.
 
 Example c27_nonvacuous :
   let ch := [99; 104] in
-  let m := SMsg (Peer 1) (Enc [1; 2] ch true 0) (Sig 1 (pub_ctx ch) (Enc [1; 2] ch true 0)) in
+  let m := SMsg (Peer 1) (Enc [1; 2] ch true 0) (Sig 1 (pub_ctx ch) (Enc [1; 2] ch true 0)) NoKey in
   let st := Node [(ch, 2%nat)] [] [(2%nat, ch); (1%nat, ch); (0%nat, ch)] in
   snd (run st [RecvPublish 0 m; RecvPublish 0 m;
-               RecvPublish 0 (SMsg (Peer 1) (Enc [1; 3] ch true 0) (Sig 1 (pub_ctx ch) (Enc [1; 2] ch true 0)))])
+               RecvPublish 0 (SMsg (Peer 1) (Enc [1; 3] ch true 0) (Sig 1 (pub_ctx ch) (Enc [1; 2] ch true 0)) NoKey);
+               RecvPublish 0 (SMsg (Peer 1) (Enc [7] ch true 0) (Sig 2 (pub_ctx ch) (Enc [7] ch true 0)) (KeyOf 2))])
   = [Deliver ch 1 [1; 2] 2; Forward 2 m].
 Proof. vm_compute. reflexivity. Qed.
